@@ -20,7 +20,7 @@ func TestC03(t *testing.T) {
 		simkit.AddRun()
 		defer simkit.Watch(300*time.Second, "C03 run")()
 		simkit.Guard(func() {
-			runHonest(t, runCfg{prop: "C03", opts: chainsim.WorldOpts{Nodes: [2]int{2, 4}, Transactions: true, Validators: [2]int{4, 8}, ValidatorChanges: true, NetFaults: true, RPCFaults: true, SmallCache: true},
+			runHonest(t, runCfg{prop: "C03", opts: chainsim.WorldOpts{Nodes: [2]int{2, 4}, Transactions: true, Validators: [2]int{4, 8}, Byzantine: simkit.Bool(t, "byzantine"), ValidatorChanges: true, NetFaults: true, RPCFaults: true, SmallCache: true},
 				faults: chainsim.FaultPlan{Partitions: true, Crashes: true, Skew: true}, blocks: [2]int{10, 70}, mutants: true}, nil)
 		})
 	})
